@@ -33,7 +33,7 @@ func (r *Run) declare(name string, k byte) symv {
 	} else if k == 's' {
 		sort = "String"
 	}
-	r.Decls = append(r.Decls, Decl{name, k})
+	r.Decls = append(r.Decls, Decl{Name: name, Kind: k})
 	r.Z.Send(fmt.Sprintf("(declare-const %s %s)", smtSym(name), sort))
 	return symv{k, smtSym(name)}
 }
@@ -66,6 +66,8 @@ func toTerm(v value) (string, byte) {
 		return "false", 'b'
 	case string:
 		return smtString(v), 's'
+	case symstr:
+		return smtOfSymstr(v), 's'
 	case uint, uint8, uint16, uint32, uint64, uintptr:
 		return bvlit(int64(asUint64(v))), 'i'
 	default:
@@ -74,6 +76,14 @@ func toTerm(v value) (string, byte) {
 }
 
 func isSym(v value) bool { _, ok := v.(symv); return ok }
+
+func isSymAny(v value) bool {
+	switch v.(type) {
+	case symv, symstr:
+		return true
+	}
+	return false
+}
 
 // intInfo returns bit width and signedness of a Go integer type (0 when not an integer).
 func intInfo(t types.Type) (width int, signed bool) {
@@ -408,16 +418,43 @@ func (r *Run) fillModel(v *Violation) {
 	}
 	st, m := r.Z.Check("", declNames2(r.Decls))
 	if st == "sat" {
-		v.Model = m
+		v.Model = packModel(r.Decls, m)
 	}
 }
 
 func declNames2(ds []Decl) []string {
 	var r []string
 	for _, d := range ds {
+		if d.Kind == 'S' {
+			for k := 0; k < d.Len; k++ {
+				r = append(r, smtSym(fmt.Sprintf("%s.b%d", d.Name, k)))
+			}
+			continue
+		}
 		r = append(r, smtSym(d.Name))
 	}
 	return r
+}
+
+// packModel folds the byte variables of byte-vector strings into one string literal each.
+func packModel(ds []Decl, m map[string]string) map[string]string {
+	if m == nil {
+		return nil
+	}
+	out := map[string]string{}
+	for _, d := range ds {
+		if d.Kind == 'S' {
+			bs := make([]byte, d.Len)
+			for k := 0; k < d.Len; k++ {
+				n, _ := DecodeBV(m[smtSym(fmt.Sprintf("%s.b%d", d.Name, k))])
+				bs[k] = byte(n)
+			}
+			out[smtSym(d.Name)] = smtString(string(bs))
+			continue
+		}
+		out[smtSym(d.Name)] = m[smtSym(d.Name)]
+	}
+	return out
 }
 
 func (r *Run) lastSite() string {
@@ -447,7 +484,7 @@ func (r *Run) assertCond(label string, c value, site string) {
 		st, m := r.Z.Check("(not "+c.term+")", declNames2(r.Decls))
 		switch st {
 		case "sat":
-			v := Violation{Label: label, Kind: "assert", Site: site, Shape: strings.Join(r.Shapes, ","), Model: m}
+			v := Violation{Label: label, Kind: "assert", Site: site, Shape: strings.Join(r.Shapes, ","), Model: packModel(r.Decls, m)}
 			r.fillModel(&v)
 			r.Violations = append(r.Violations, v)
 			// continue on the side where the assertion holds, if any
@@ -485,6 +522,10 @@ func symIntrinsic(name string) nativeFn {
 			r.addPC(fmt.Sprintf("(<= (str.len %s) %d)", v.term, asInt64(args[1])))
 			r.addPC(fmt.Sprintf("(str.in_re %s (re.* (re.range \" \" \"~\")))", v.term))
 			return v
+		}
+	case "verifStrB":
+		return func(fr *frame, args []value) value {
+			return fr.i.R.declareBytes(str(args[0]), int(asInt64(args[1])), str(args[2]))
 		}
 	case "verifAbstractStrings":
 		return func(fr *frame, args []value) value {
